@@ -57,7 +57,11 @@ def probe(V, source, defs, pred_fail, what, std='c++11', run_it=True, variant=No
         os.replace(out + '.tmp', out)
     V.transitions += 1; V.validated += 1
     if run_it:
-        p = subprocess.run([out], stdout=subprocess.PIPE, stderr=subprocess.STDOUT, text=True)
+        try:
+            p = subprocess.run([out], stdout=subprocess.PIPE, stderr=subprocess.STDOUT, text=True, timeout=120)
+        except subprocess.TimeoutExpired as te:
+            class _P: pass
+            p = _P(); p.returncode = -9; p.stdout = 'the program did not terminate within 120 s (a library call does not return)'
         if p.returncode != 0:
             V.add_violation(pred_fail + '-behaviour', '%s: %s' % (what, p.stdout[-500:]), dict(kind='probe', source=source, defs=defs, std=std, cmd=' '.join(cmd + [src]), output=p.stdout[-3000:]))
             return False
@@ -295,11 +299,15 @@ def probe_build_run(combo, std, cxx, header):
         p = subprocess.run(cmd, stdout=subprocess.PIPE, stderr=subprocess.STDOUT, text=True)
         if p.returncode != 0:
             return dict(ok=False, cmd=' '.join(cmd), output=p.stdout[-2500:], first=([l for l in p.stdout.splitlines() if 'error' in l] or [''])[0][:400])
-    p = subprocess.run([out], stdout=subprocess.PIPE, stderr=subprocess.STDOUT, text=True)
-    m = re.search(r'C19-DIGEST (\w+)', p.stdout)
+    try:
+        p = subprocess.run([out], stdout=subprocess.PIPE, stderr=subprocess.STDOUT, text=True, timeout=120)
+        so = p.stdout; prc = p.returncode
+    except subprocess.TimeoutExpired:
+        so = ''; prc = -9
+    m = re.search(r'C19-DIGEST (\w+)', so)
     try: os.unlink(out)
     except OSError: pass
-    return dict(ok=True, digest=m.group(1) if m else 'rc=%d' % p.returncode, cmd=' '.join(cmd))
+    return dict(ok=True, digest=m.group(1) if m else 'rc=%d' % prc, cmd=' '.join(cmd))
 
 @vc.custom('C19')
 def check_c19(tier):
